@@ -812,6 +812,27 @@ func (e *Engine) specFunc(y *ECall, env *evalEnv) (Val, bool) {
 		e.vc.declSort("(assert (forall ((n Int)) (! (=> (> n 0) (= (pow2 n) (* 2 (pow2 (- n 1))))) :pattern ((pow2 n)))))")
 		e.vc.declSort("(assert (forall ((n Int)) (! (=> (>= n 0) (>= (pow2 n) 1)) :pattern ((pow2 n)))))")
 		return Val{S: app("pow2", arg(0).S), T: specInt}, true
+	case "someint":
+		// someint("name", a, b, ...): an unspecified integer depending on the arguments (e.g. "the power of reporter a")
+		if l, ok := y.Args[0].(*ELit); ok {
+			var as, sorts []string
+			for i := 1; i < len(y.Args); i++ {
+				a := arg(i)
+				srt := "Int"
+				switch {
+				case a.T == bvT || (a.T != nil && isByteSlice(a.T)):
+					srt = "BV"
+				case a.T != nil && kindOf(a.T) == kStr:
+					srt = "Str"
+				}
+				as = append(as, e.specKey(a, env))
+				sorts = append(sorts, srt)
+			}
+			fn := "ski_" + mangle(l.Val)
+			e.declAddr()
+			e.vc.declFun(fn, sorts, "Int")
+			return Val{S: app(fn, as...), T: specInt}, true
+		}
 	case "somebytes":
 		// somebytes("name", a, b, ...): an unspecified byte string depending on the arguments (existential witness in
 		// a precondition, e.g. "some reporter of this round")
